@@ -311,6 +311,35 @@ type fatalSite struct {
 	Fn   *ssa.Function
 	Pos  token.Pos
 	What string
+	// Soft: an explicit panic statement behind a branch that panicInfeasible could not refute and that no
+	// interpretation in this process has entered. Whether an input reaches it is not decided statically: it
+	// may be an assertion that cannot fire (round 9: twelve of twenty behaviour-preserving refactorings added
+	// such assertions) or a real exit on hostile input, which the interpreted families report with a witness.
+	Soft    bool
+	Guarded int // how often the interpreted scenarios of this process evaluated the guard
+}
+
+// hardSites / softSites split the result of fatalSites.
+func hardSites(all []fatalSite) (hard, soft []fatalSite) {
+	for _, s := range all {
+		if s.Soft {
+			soft = append(soft, s)
+		} else {
+			hard = append(hard, s)
+		}
+	}
+	return
+}
+
+func softNote(soft []fatalSite) string {
+	if len(soft) == 0 {
+		return ""
+	}
+	var parts []string
+	for _, s := range soft {
+		parts = append(parts, fmt.Sprintf("%s (guard evaluated %d times by the interpreted scenarios, never taken)", fname(s.Fn), s.Guarded))
+	}
+	return fmt.Sprintf("; %d explicit panic statement(s) behind a guard are not decided statically: %s", len(soft), strings.Join(parts, ", "))
 }
 
 func fatalSites(roots []*ssa.Function) []fatalSite {
@@ -329,11 +358,19 @@ func fatalSites(roots []*ssa.Function) []fatalSite {
 						if panicInfeasible(x) {
 							continue // guarded by a condition that cannot hold (see panicInfeasible)
 						}
-						out = append(out, fatalSite{f, x.Pos(), "panic"})
+						site := fatalSite{Fn: f, Pos: x.Pos(), What: "panic"}
+						if len(b.Preds) > 0 && blockCount[b] == 0 {
+							// guarded, and never entered by an interpretation so far
+							site.Soft = true
+							for _, pr := range b.Preds {
+								site.Guarded += blockCount[pr]
+							}
+						}
+						out = append(out, site)
 					case ssa.CallInstruction:
 						n := calleeName(x.Common())
 						if strings.HasPrefix(n, "log.Fatal") || strings.HasPrefix(n, "log.Panic") || n == "os.Exit" || n == "(*log.Logger).Fatal" || n == "(*log.Logger).Fatalf" || n == "(*log.Logger).Fatalln" || n == "runtime.Goexit" {
-							out = append(out, fatalSite{f, x.Pos(), shortFn(n)})
+							out = append(out, fatalSite{Fn: f, Pos: x.Pos(), What: shortFn(n)})
 						}
 					}
 				}
